@@ -22,7 +22,8 @@
 (*   text   [segs, join]                                                   *)
 (* segs is a sequence of physical lines; join = "bs": the physical lines   *)
 (* end in backslash-newline (continuation); join = "bc": they are held     *)
-(* together by a block comment that contains one newline.                  *)
+(* together by a block comment that contains one newline ("bc0": the       *)
+(* closing marker is the first thing on its line).                         *)
 (* Every line also has tag (name of the construct, used in finding keys)   *)
 (* and rich (BOOLEAN: a call argument contains a macro name, a string or   *)
 (* white space - see Specified).                                           *)
@@ -52,6 +53,7 @@ RECURSIVE Spell(_)
 Spell(seq) == IF Len(seq) = 0 THEN "" ELSE Head(seq).s \o Spell(Tail(seq))
 
 IsComment(l) == l.k \in {"lc", "bc"}
+IsBcJoin(j) == j \in {"bc", "bc0"}          \* physical lines held together by a multi-line block comment
 NoComments(seq) == SelectSeq(seq, LAMBDA l : ~IsComment(l))        \* DropComment
 NoWs(seq) == SelectSeq(seq, LAMBDA l : l.k # "ws")
 StrSeq(seq) == SelectSeq(seq, LAMBDA l : l.k = "str")
@@ -192,7 +194,7 @@ Apply(st, line, dev) ==
               [st1 EXCEPT !.cond = SubSeq(st.cond, 1, Len(st.cond) - 1)]
          [] line.k = "text" ->                                             \* TextLine
               LET segs == CleanSegs(line.segs)
-                  lines == IF line.join = "bc"
+                  lines == IF IsBcJoin(line.join)
                            THEN [j \in 1..Len(segs) |-> [src |-> i, lex |-> IF act THEN Expand(cx, segs[j]) ELSE <<>>]]
                            ELSE << [src |-> i, lex |-> IF act THEN Expand(cx, JoinSegs(segs)) ELSE <<>>] >>
               IN [st EXCEPT !.n = i, !.out = st.out \o lines]
@@ -290,7 +292,7 @@ PassThroughNoWs(src, out) == IsPlain(src) => NoWs(out) = NoWs(SrcFlat(src)) \* o
 \* text in an inactive branch never reaches the output, directives there have no effect
 LineActive(src, i) == Active(Before(src, i))
 BlankLine(line) == [k |-> "text", tag |-> "blank", rich |-> FALSE, join |-> (IF line.k = "text" THEN line.join ELSE "bs"),
-                    segs |-> (IF line.k = "text" /\ line.join = "bc" THEN [j \in 1..Len(line.segs) |-> <<>>] ELSE << <<>> >>)]
+                    segs |-> (IF line.k = "text" /\ IsBcJoin(line.join) THEN [j \in 1..Len(line.segs) |-> <<>>] ELSE << <<>> >>)]
 Blank(src) == [i \in 1..Len(src) |-> IF src[i].k \notin CondKinds /\ ~LineActive(src, i) THEN BlankLine(src[i]) ELSE src[i]]
 \* (model) an expander is silent about inactive branches iff blanking them does not change its output
 InactiveBranchSilentModel(src, dev) == Run(src, dev).out = Run(Blank(src), dev).out
@@ -329,6 +331,7 @@ FirstDivergence(src, out) ==
 (* Render: the text of a source (what the real preprocessor is given)      *)
 BsNl == "\\\n"
 BcText == "/* c1\nc2 */"
+Bc0Text == "/* c1\n*/"                     \* the closing marker starts its line
 RECURSIVE SpellSegs(_, _)
 SpellSegs(segs, sep) == IF Len(segs) = 0 THEN "" ELSE IF Len(segs) = 1 THEN Spell(segs[1])
                         ELSE Spell(segs[1]) \o sep \o SpellSegs(Tail(segs), sep)
@@ -343,7 +346,7 @@ RenderLine(line) ==
       [] line.k = "ifndef" -> "#ifndef " \o line.name
       [] line.k = "else" -> "#else"
       [] line.k = "endif" -> "#endif"
-      [] line.k = "text" -> SpellSegs(line.segs, IF line.join = "bc" THEN BcText ELSE BsNl)
+      [] line.k = "text" -> SpellSegs(line.segs, IF line.join = "bc" THEN BcText ELSE IF line.join = "bc0" THEN Bc0Text ELSE BsNl)
 RECURSIVE Render(_)
 Render(src) == IF Len(src) = 0 THEN "" ELSE IF Len(src) = 1 THEN RenderLine(src[1])
                ELSE RenderLine(src[1]) \o "\n" \o Render(Tail(src))
